@@ -4,7 +4,7 @@ from ..core import Violation
 from .. import pipeline, recvfeed, protocol, edgefeed, netfeed
 
 ID = 'C03'
-PROP_FILES = ['C03', 'C03Join', 'C03JoinMulti', 'EdgeRecv', 'EdgeSend', 'C03Edge', 'C03EdgeLive', 'ChainSend', 'ChainRecv', 'C03Net', 'C03Tree', 'RejoinRecv', 'C03Rejoin']
+PROP_FILES = ['C03', 'C03Join', 'C03JoinMulti', 'EdgeRecv', 'EdgeSend', 'C03Edge', 'C03EdgeLive', 'ChainSend', 'ChainRecv', 'C03Net', 'C03Tree', 'RejoinRecv', 'C03Rejoin', 'IndepJoinInv', 'C03IndepJoin', 'IndepJoinSinkInv', 'C03IndepJoinSink', 'RejoinSkipRecv', 'RejoinSkipSend', 'C03RejoinSkip']
 MODULES = ['OFModel.Zmq.Receiver', 'OFModel.Zmq.Sender', 'OFModel.Zmq.Pair', 'OFModel.Zmq.PairReq', 'OFModel.Zmq.Net', 'OFModel.FilterLoop', 'OFModel.Gen.Facts']
 RULE = ('MQNet pipelines (real MQ/ZMQSender/ZMQReceiver objects, thread-less event loop, virtual time): topologies drawn from chain / tee / tee-rejoin (2-3 branches) / '
         'independent join with 3-7 filters, behaviours from {pass, None on chosen ids (not on rejoined branches), {}, lone Frame, callable, add/rename topic}, '
@@ -20,7 +20,7 @@ ASSUMPTIONS = ['partial: stage A component theorems are proved (publish-or-disca
                'of exactly one frame per subscribed topic of that source\'s block of the returned id (never a partial block), all carrying the returned id, the payload of the wire message and the mapped name, '
                '(ii) the returned ids are exactly the ids published by every source, none skipped below the frontier.  Hypothesis on the network: the block as delivered = the sent block filtered by the SUB prefixes '
                '(IsBlock / isBlock_of_sent; frames are abstracted through decodeTopic, the ZeroMQ prefix match itself is not modelled).  NOT proved: ephemeral side sources, balanced receivers, recv(state) jumps, '
-               'an explicit subscription with an empty list, progress (liveness) of joins, and the DAG refinement (C) for independent joins and rejoins with skipping branches - that part of the pipeline level is explored, with the composition reference as oracle',
+               'an explicit subscription with an empty list, progress (liveness) of joins, and the DAG refinement (C) for joins below relays, rejoins whose branch functions depend on their call counter (C03_net_rejoin_skip_needs_cntfree), and restarts - that part of the pipeline level is explored, with the composition reference as oracle',
                'EDGE refinement (stage B) PROVED on the closed edge model OFModel/Zmq/PairReq.lean (OFProps/C03Edge.lean, C03EdgeLive.lean, helper files EdgeRecv/EdgeSend): one source-filter publisher with '
                'outs_required=[R], one synchronised all-topics consumer R, a flag subUp (PUB/SUB connection established; while false every publish is lost for R, requests always get through; connectSub at any time, late or never), '
                'a second client X sending any ephemeral request / any synchronised request for an already published id at any time; single topic main per frame set, frame k has payload k; every call has timeout 0; no restarts; '
@@ -30,7 +30,8 @@ ASSUMPTIONS = ['partial: stage A component theorems are proved (publish-or-disca
                '_tracked_only_when_heard (handshake invariant, every event), C03_edge_progress (pair alone, connection up: [recv, send, recv, send, recv] returns frame n; a schedule is exhibited, fairness not proved), kernel-evaluated negative witnesses '
                'C03_edge_needs_required (required=[] + second client) and C03_edge_needs_new_flag (new flag dropped, pair alone) on the same step function, and C03_edge_pair_alone_any_required (in the pair ALONE outs_required is never exercised: '
                'nothing is published before some client is tracked and the only client is tracked only after it heard).  NOT modelled there: MQ.send wrapping frames in a callable (stage A3), multi-topic blocks, HWM, several consumers as full automata, restarts',
-               'stage C PROVED on the network model OFModel/Zmq/Net.lean for CHAINS (C03_net_chain_composition, OFProps/C03Net.lean) and TEES / TREES (C03_net_tree_composition, C03_net_tree_edge, OFProps/C03Tree.lean: node 0 the source, every other node subscribed to ONE earlier node, any number of consumers per publisher): arbitrary process functions whose results are dicts of distinct non-empty topic names (ProcNames), every restart-free schedule of recv i | send i @t (no bound, any clock readings): for every node the log of (id, [(topic, content)]) sets its process() was called with is a PREFIX of the source frames 0..N-1 threaded through the process functions on the path to it (Loop.processFrames normalisation: None drops the frame downstream, {} = empty set, lone Frame = main, callable = its value; hidden topics removed; ids = the source\'s consecutive ids of the surviving frames, handed on unchanged); C03_net_chain_deferred_at_send: the callable is evaluated only in the send that publishes its value (or frees the loop on None). Helper theorems send0_chain (exact outcome of one MQ.send) and call0_chain (single-source consumer over a queue of complete multi-topic blocks).  In Net delivery is immediate and every SUB connection is up from the start, so NO outs_required is needed there (a late consumer finds the blocks in its queue); required matters with the slow joiner, proved at edge level only (PairReq).  TEE-REJOIN (C03_net_rejoin_composition, OFProps/RejoinRecv.lean + C03Rejoin.lean): source, b >= 1 one-relay branches none of which returns None ({} allowed) and each publishing its own topic names, join subscribed to all branches: for every restart-free schedule the sets handed to the join are a PREFIX of: for n = 0,1,2,.. the set with id n holding every branch\'s output for the source\'s n-th surviving frame (all branches, same frame, none skipped, from frame 0); kernel-checked witness C03_net_rejoin_needs_noskip (a skipping branch: the join gets the common ids only), replayed on the real classes in every run.  NOT proved at stage C: rejoins with skipping branches (common ids) or longer branches, a sink below the join, independent joins, restarts, loss / HWM / connection timing',
+               'stage C PROVED on the network model OFModel/Zmq/Net.lean for CHAINS (C03_net_chain_composition, OFProps/C03Net.lean) and TEES / TREES (C03_net_tree_composition, C03_net_tree_edge, OFProps/C03Tree.lean: node 0 the source, every other node subscribed to ONE earlier node, any number of consumers per publisher): arbitrary process functions whose results are dicts of distinct non-empty topic names (ProcNames), every restart-free schedule of recv i | send i @t (no bound, any clock readings): for every node the log of (id, [(topic, content)]) sets its process() was called with is a PREFIX of the source frames 0..N-1 threaded through the process functions on the path to it (Loop.processFrames normalisation: None drops the frame downstream, {} = empty set, lone Frame = main, callable = its value; hidden topics removed; ids = the source\'s consecutive ids of the surviving frames, handed on unchanged); C03_net_chain_deferred_at_send: the callable is evaluated only in the send that publishes its value (or frees the loop on None). Helper theorems send0_chain (exact outcome of one MQ.send) and call0_chain (single-source consumer over a queue of complete multi-topic blocks).  In Net delivery is immediate and every SUB connection is up from the start, so NO outs_required is needed there (a late consumer finds the blocks in its queue); required matters with the slow joiner, proved at edge level only (PairReq).  TEE-REJOIN (C03_net_rejoin_composition, OFProps/RejoinRecv.lean + C03Rejoin.lean): source, b >= 1 one-relay branches none of which returns None ({} allowed) and each publishing its own topic names, join subscribed to all branches: for every restart-free schedule the sets handed to the join are a PREFIX of: for n = 0,1,2,.. the set with id n holding every branch\'s output for the source\'s n-th surviving frame (all branches, same frame, none skipped, from frame 0); kernel-checked witness C03_net_rejoin_needs_noskip (a skipping branch: the join gets the common ids only), replayed on the real classes in every run.  INDEPENDENT JOIN (C03_net_indep_join_composition / _exact / _surviving / _no_fast_forward, OFProps/IndepJoinInv.lean + C03IndepJoin.lean): b >= 1 source filters each with its OWN frame counter (MQ.send passes state=None: the id is the ZMQSender\'s min_send_id), each publishing its own topic names, join subscribed to all of them: for every restart-free schedule the sets handed to the join are a PREFIX of: for n = 0,1,2,.. the set with id n holding, source after source, the visible topics of source i\'s n-th frame (no source returns None: NoSkipSrc); WITHOUT that hypothesis (_surviving) the n-th SURVIVING frames - a None at a source never reaches its sender, consumes no id, and no other source is fast-forwarded (per source: min_send_id = number of blocks published, published ++ held = its own surviving frames); kernel-checked witness C03_net_indep_join_needs_noskip, replayed on the real classes in every run.  With a SINK below the independent join (C03_net_indep_join_sink_composition / _surviving, OFProps/IndepJoinSinkInv.lean + C03IndepJoinSink.lean, topology sources -> join -> sink): the join\'s sets as above AND the sets handed to the sink are a PREFIX of the join\'s process function threaded through those sets (None of the join drops the id for the sink, ids handed on unchanged).  NOT proved at stage C: rejoins with skipping branches (common ids) or longer branches, a sink below a tee-REjoin, relays between the sources and an independent join, restarts, loss / HWM / connection timing',
+               'tee-REJOIN WITH SKIPPING BRANCHES (stage C): TEE-REJOIN WITH SKIPPING BRANCHES (C03_net_rejoin_common_ids, OFProps/RejoinSkipRecv.lean + RejoinSkipSend.lean + C03RejoinSkip.lean): NoSkip removed - any branch may return None (directly or as the value of its callable) for any set; hypotheses ProcNames, Owned and BranchCntFree (the result of a branch does not depend on its call counter); for every restart-free schedule the sets handed to the join are a PREFIX of rejoinSpecSkip: the surviving source frames of which EVERY branch makes a dict, in increasing order, each set holding the output of every branch for that very frame (never mixed, nothing common lost, nothing duplicated or reordered).  Covers the receiver path "newer id: adopt it, reset the other sources" on dynamic streams (SInv, take_sinv, call0_joinS) and the fast-forward path of the sender (send0_ffwd): the join asks every branch for the adopted id - 1, a branch still holding an older frame drops it unpublished, is fast-forwarded, and its receiver discards the source frames below the adopted id WITHOUT calling process() - all of them frames a sibling dropped.  That is why BranchCntFree is needed: kernel-checked witness C03_net_rejoin_skip_needs_cntfree (a branch that drops "its fourth set": the frames handed to the join depend on the schedule), and the fast-forward witness fSched is replayed on the real classes in every run (netfeed.rejoin_ffwd_witness) together with negative controls of the oracle (loss / mixed / duplicate).  NOT proved at stage C: rejoins with longer branches, a sink below the join, independent joins, restarts, loss / HWM / connection timing',
                'MQNet replaces Filter.loop_once by a 10-line replica around the real MQ object (every call timeout=0, re-armed each poll interval or on arrival); libzmq by the in-process fake',
                'message delays below the 100 ms request interval, lossless channels, no restarts (C03 hypotheses)']
 TRUSTED = ['composition reference = the same Python process functions applied to the source sequence (harness/ofverif/pipeline.py: reference)']
@@ -214,11 +215,12 @@ def chain_campaign(ctx, n):
     trials = [c['trial'] for c in ctx.corpus if c.get('feed') == 'netchain']
     if ctx.replay and ctx.replay.get('case', {}).get('feed') == 'netchain':
         trials = [ctx.replay['case']['trial']]; n = 0
-    for k in range(n):      # every third one a tee / tree (C03_net_tree_composition), every sixth a tee-rejoin (C03_net_rejoin_composition)
-        trials.append(netfeed.gen_rejoin_trial(rng) if k % 6 == 5 else (netfeed.gen_chain_trial(rng) if k % 3 else netfeed.gen_tree_trial(rng)))
+    for k in range(n):      # every third one a tee / tree (C03_net_tree_composition), every sixth a tee-rejoin (C03_net_rejoin_composition), every seventh an independent join (C03_net_indep_join_composition)
+        trials.append(netfeed.gen_indep_join_trial(rng) if k % 7 == 6 else
+                      netfeed.gen_rejoin_trial(rng) if k % 6 == 5 else (netfeed.gen_chain_trial(rng) if k % 3 else netfeed.gen_tree_trial(rng)))
     impl = [netfeed.run_impl(t) for t in trials]
     model = ctx.driver.batch([netfeed.model_request(t) for t in trials]) if ctx.driver and trials else None
-    sets = sink_sets = join_sets = 0
+    sets = sink_sets = join_sets = ijoin_sets = ijoin_skipping = ijoin_sink_sets = ffwd_seen = 0
     for idx, (t, (obs, handed, pubmid)) in enumerate(zip(trials, impl)):
         L = len(t['topo']['ups'])
         for key, what in netfeed.send_oracle(pubmid)[:1]:
@@ -229,10 +231,18 @@ def chain_campaign(ctx, n):
         res.note({'feed': 'netchain', 'length': L, 'behs': t['topo']['behs'], 'events': len(t['evs']), 'sets_handed': ns, 'at_sink': nk}, nontrivial=bool(shaped and nk))
         case = {'feed': 'netchain', 'trial': t}
         fam_ = t['topo'].get('family')
-        orc = netfeed.tree_oracle if fam_ == 'tree' else (netfeed.rejoin_oracle if fam_ == 'teerejoin' else netfeed.chain_oracle)
+        orc = netfeed.tree_oracle if fam_ == 'tree' else (netfeed.rejoin_oracle if fam_ == 'teerejoin' else
+                                                       netfeed.indep_join_oracle if fam_ == 'indepjoin' else netfeed.chain_oracle)
+        if fam_ == 'indepjoin':
+            J = next(i for i, u in enumerate(t['topo']['ups']) if len(u) > 1)
+            ijoin_sets += sum(1 for hd in handed if hd[1] == J); ijoin_sink_sets += sum(1 for hd in handed if hd[1] == J + 1)
+            ijoin_skipping += any(b.get('skip') or b.get('dnone') for b in t['topo']['behs'][:J])
         if fam_ == 'teerejoin':
             J = next(i for i, u in enumerate(t['topo']['ups']) if len(u) > 1)
             join_sets += sum(1 for hd in handed if hd[1] == J)
+            for br in t['topo']['ups'][J]:      # a branch whose handed ids have a gap was fast-forwarded (the source's ids are consecutive)
+                ids_ = [hd[2] for hd in handed if hd[1] == br]
+                if any(y != x + 1 for x, y in zip(ids_, ids_[1:])): ffwd_seen += 1; break
         for key, what in orc(t, obs, handed)[:1]:
             res.violations.append(Violation(key, what, case))
         if model is None: continue
@@ -247,16 +257,58 @@ def chain_campaign(ctx, n):
             res.disagreements.append({'point': f'MQ chain event #{ci} {t["evs"][ci] if ci < len(t["evs"]) else None} vs OF.Net.step', 'case': case,
                                       'impl': o[ci][0] if ci < len(o) else None, 'model': m[ci][0] if ci < len(m) else None})
         else: res.traces_validated += 1
-    # negative control (hypothesis NoSkip of C03_net_rejoin_composition; Lean witness C03_net_rejoin_needs_noskip): a branch that skips
+    # witness of C03_net_rejoin_needs_noskip on the real classes: a branch that skips its second set - the join is handed the COMMON ids 0, 2, 3, ...
+    # (C03_net_rejoin_common_ids: the reference is the common-ids specification, so the oracle stays silent) ...
     wt = netfeed.rejoin_skip_witness()
     wobs, whanded, _ = netfeed.run_impl(wt)
     wkeys = [k for k, _ in netfeed.rejoin_oracle(wt, wobs, whanded)]
     wids = [ident for idx, j, ident, fr in whanded if j == 3]
-    if wkeys != ['net-rejoin-composition'] or wids[:3] != [0, 2, 3]:
-        res.disagreements.append({'point': 'negative witness "a branch of a tee-rejoin skips its second set": the join must be handed the common ids 0, 2, 3, ... and the rejoin oracle must fire (oracle blind or code changed)',
-                                  'case': {'feed': 'netchain-witness', 'trial': wt}, 'impl': {'keys': wkeys, 'ids': wids[:6]}, 'model': {'keys': ['net-rejoin-composition'], 'ids': [0, 2, 3]}})
-    res.extra['chain_stats'] = {'trials': len(trials), 'rejoin_skip_witness_ids': wids[:6], 'trees': sum(1 for t in trials if t['topo'].get('family') == 'tree'),
-                                'rejoins': sum(1 for t in trials if t['topo'].get('family') == 'teerejoin'), 'sets_at_joins': join_sets, 'sets_handed': sets, 'at_last_node': sink_sets}
+    if wkeys != [] or wids[:3] != [0, 2, 3]:
+        res.disagreements.append({'point': 'witness "a branch of a tee-rejoin skips its second set": the join must be handed the common ids 0, 2, 3, ... and nothing else (code changed?)',
+                                  'case': {'feed': 'netchain-witness', 'trial': wt}, 'impl': {'keys': wkeys, 'ids': wids[:6]}, 'model': {'keys': [], 'ids': [0, 2, 3]}})
+    # ... and the negative controls: the oracle must fire on a real loss / a mixed set / a duplicate (the observation of that run, tampered with)
+    ctl = netfeed.rejoin_loss_controls(wt, wobs, whanded)
+    if ctl != {'loss': ['net-rejoin-composition'], 'mixed': ['net-rejoin-composition'], 'duplicate': ['net-rejoin-composition']}:
+        res.disagreements.append({'point': 'negative controls of the rejoin oracle (a common frame removed from / mixed in / repeated in what the join was handed): the oracle must fire on each (oracle blind)',
+                                  'case': {'feed': 'netchain-witness', 'trial': wt}, 'impl': ctl, 'model': {'loss': ['net-rejoin-composition'], 'mixed': ['net-rejoin-composition'], 'duplicate': ['net-rejoin-composition']}})
+    # the fast-forward path of C03_net_rejoin_common_ids on the real classes: a stalled branch is fast-forwarded by the join's requests past frames its sibling dropped
+    ft = netfeed.rejoin_ffwd_witness()
+    fobs, fhanded, _ = netfeed.run_impl(ft)
+    fkeys = [k for k, _ in netfeed.rejoin_oracle(ft, fobs, fhanded)]
+    fids = [ident for idx, j, ident, fr in fhanded if j == 3]
+    b2ids = [ident for idx, j, ident, fr in fhanded if j == 2]
+    if fkeys != [] or fids[:4] != [0, 1, 6, 7] or b2ids[:5] != [0, 1, 2, 6, 7]:
+        res.disagreements.append({'point': 'witness "a stalled branch of a tee-rejoin is fast-forwarded past the frames its sibling dropped": the join must be handed the common ids 0, 1, 6, 7, ..., the stalled branch the ids 0, 1, 2, 6, 7, ... (code changed?)',
+                                  'case': {'feed': 'netchain-witness', 'trial': ft}, 'impl': {'keys': fkeys, 'join': fids[:6], 'branch2': b2ids[:6]}, 'model': {'keys': [], 'join': [0, 1, 6, 7], 'branch2': [0, 1, 2, 6, 7]}})
+    if model is not None:
+        fr_ = ctx.driver.batch([netfeed.model_request(ft)])[0]
+        if 'err' in fr_ or netfeed.canon_model(fr_, ft)[0][:len(fobs)] != netfeed.canon_impl(fobs):
+            res.disagreements.append({'point': 'fast-forward witness: MQ objects vs OF.Net.step', 'case': {'feed': 'netchain-witness', 'trial': ft}, 'impl': None, 'model': fr_ if 'err' in fr_ else None})
+    # negative control (hypothesis NoSkipSrc of C03_net_indep_join_composition; Lean witness C03_net_indep_join_needs_noskip): a SOURCE that skips
+    jt = netfeed.indep_join_skip_witness()
+    jobs, jhanded, _ = netfeed.run_impl(jt)
+    jstrict = [k for k, _ in netfeed.indep_join_oracle(jt, jobs, jhanded, strict=True)]
+    jsurv = [k for k, _ in netfeed.indep_join_oracle(jt, jobs, jhanded)]
+    jsets = [[ident, [[tt, c] for tt, c, _ in fr]] for idx, j, ident, fr in jhanded if j == 2]
+    jwant = [[0, [['a', 0], ['b', 0]]], [1, [['a', 20], ['b', 10]]], [2, [['a', 30], ['b', 20]]]]
+    if jstrict != ['net-join-composition'] or jsurv != [] or jsets[:3] != jwant:
+        res.disagreements.append({'point': 'negative witness "a source of an independent join returns None for its second frame": the join must be handed the n-th SURVIVING frames under the ids 0, 1, 2, ... '
+                                           '(no id consumed, nobody fast-forwarded), the frame-n-with-frame-n oracle must fire and the surviving-frames oracle must not (oracle blind or code changed)',
+                                  'case': {'feed': 'netchain-witness', 'trial': jt}, 'impl': {'strict': jstrict, 'surviving': jsurv, 'sets': jsets[:3]},
+                                  'model': {'strict': ['net-join-composition'], 'surviving': [], 'sets': jwant}})
+    if ctx.driver:
+        r = ctx.driver.batch([netfeed.model_request(jt)])[0]
+        if 'err' in r or netfeed.canon_model(r, jt)[0][:len(jobs)] != netfeed.canon_impl(jobs):
+            res.disagreements.append({'point': 'negative witness "a source of an independent join skips": real MQ objects vs OF.Net.step', 'case': {'feed': 'netchain-witness', 'trial': jt},
+                                      'impl': None, 'model': r if 'err' in r else None})
+        else: res.traces_validated += 1
+    res.extra['indep_join_stats'] = {'trials': sum(1 for t in trials if t['topo'].get('family') == 'indepjoin'), 'with_skipping_source': ijoin_skipping,
+                                     'sets_at_joins': ijoin_sets, 'sets_at_sinks_below': ijoin_sink_sets, 'skip_witness_sets': jsets[:3]}
+    skipping = [t for t in trials if t['topo'].get('family') == 'teerejoin' and any(b.get('cskip') or b.get('cdnone') for b in t['topo']['behs'])]
+    res.extra['chain_stats'] = {'trials': len(trials), 'rejoin_skip_witness_ids': wids[:6], 'rejoin_ffwd_witness_ids': fids[:6], 'rejoin_oracle_controls': ctl,
+                                'trees': sum(1 for t in trials if t['topo'].get('family') == 'tree'),
+                                'rejoins': sum(1 for t in trials if t['topo'].get('family') == 'teerejoin'), 'rejoins_with_skipping_branches': len(skipping),
+                                'rejoin_branch_fast_forwarded': ffwd_seen, 'sets_at_joins': join_sets, 'sets_handed': sets, 'at_last_node': sink_sets}
 
 
 def run(ctx):
